@@ -20,13 +20,17 @@ RULE = ('1..4 fake modules (0..4 parameters each: no read function / plain read 
         'event for a fixed number of loop turns; poll intervals incl. 0 and shorter than a read, slow intervals, per-call '
         'duration and outcome scripts (ok, SECoP error, silent error, arbitrary exception, communication failure), '
         'run-time actions at virtual times (pollinterval change, setFastPoll, trigger, immediate trigger, reconnect '
-        'callback, shutdown); a case is non-trivial when the poller made at least 3 calls; distinct = distinct '
+        'callback, shutdown; also two requests at the same virtual time), persisting communication failures at '
+        'start-up; a case is non-trivial when the poller made at least 3 calls; distinct = distinct '
         '(module descriptors, consumed scripts, actions) tuples')
 ASSUMPTIONS = [
     'virtual time: the clock advances only by scripted call durations, by Event.wait time-outs and by a per-turn '
     'overhead eps (given per case, 0..3 ticks) charged when the loop condition `while modules` is evaluated; '
     'all times, intervals and durations are multiples of 2**-10 s so that the float arithmetic of the poller is exact',
     'Event.wait(timeout) returns exactly at the time-out (rounded to a tick) or at the first run-time action before it',
+    'run-time requests of other threads run while the poller sleeps (inside a driver call or Event.wait) and, when they '
+    'are due but did not run yet (they fell into the per-turn overhead or share their time with the request that ended '
+    'a wait), at the moment the poller enters Event.wait or Event.clear - the interleaving in which a lost wake-up shows',
     'read functions return a fresh value on every successful call (so announceUpdate always refreshes the timestamp); '
     'the announceUpdate rule "repeated identical error does not refresh timestamp/report_error=False" is modelled',
     'exceptions are Exception subclasses (BaseException such as SystemExit is deliberately not contained by the code)',
@@ -35,6 +39,7 @@ ASSUMPTIONS = [
 ]
 
 NPAR = 4
+STARTUP_WAIT = 102      # the 0.1 s the thread waits for a reconnection after a communication failure at start-up
 ERRK = {'secop': 1, 'silent': 2, 'other': 3, 'comm': 4}
 
 
@@ -149,6 +154,7 @@ class _Run:
         self.owner = None
         self.in_main = 0
         self.calls = []          # top-level calls made by the poller: [kind, module, param, start, end]
+        self.waits = []          # [log position, start, requested time-out, actual end] of every Event.wait
 
     # --- clock (replaces the name `time` in frappy.modulebase)
     def time(self):
@@ -181,6 +187,13 @@ class _Run:
         self.now = target
 
     # --- trigger event
+    def fire_due(self):
+        """requests of other threads which are due (scheduled time <= clock) but did not run yet (they fell into the
+        per-turn overhead, or share their time with the request that ended a wait) run when the poll thread enters a
+        method of the trigger event: another thread is scheduled between two statements of the poll thread"""
+        while self.actions and self.actions[0][0] <= self.now:
+            self.fire(self.actions.pop(0))
+
     def is_set(self):
         return self.flag
 
@@ -188,19 +201,26 @@ class _Run:
         self.flag = True
 
     def clear(self):
+        self.fire_due()
         self.flag = False
 
     def wait(self, timeout=None):
         ticks = int(round(timeout * TICK))
+        self.fire_due()
+        rec = [len(self.log), self.now, ticks, None]     # log position, start, requested time-out, actual end
+        self.waits.append(rec)
         self.log.append(['wait', self.now, ticks])
-        if self.flag:
-            return True
-        target = self.now + max(0, ticks)
-        if self.actions and self.actions[0][0] <= target:
-            self.fire(self.actions.pop(0))
+        try:
+            if self.flag:
+                return True
+            target = self.now + max(0, ticks)
+            if self.actions and self.actions[0][0] <= target:
+                self.fire(self.actions.pop(0))
+                return self.flag
+            self.now = target
             return self.flag
-        self.now = target
-        return self.flag
+        finally:
+            rec[3] = self.now
 
     # --- scripted bodies of driver functions
     def body(self, mod, what):
@@ -323,7 +343,8 @@ def run_case(case):
                                'polled': [_pidx(r.__name__) for _, r, _ in pi.polled_parameters],
                                'ts': [_ticks(m.parameters[f'p{i}'].timestamp) for i in range(len(case['mods'][len(pinfos)]['params']))]})
         return {'log': run.log, 'end': end, 'started': started, 'now': run.now, 'used': run.used,
-                'pinfo': pinfos, 'fired': run.fired, 'calls': run.calls, 'flag': run.flag, 'alive': len(modlist) > 0}
+                'pinfo': pinfos, 'fired': run.fired, 'calls': run.calls, 'waits': run.waits, 'flag': run.flag,
+                'alive': len(modlist) > 0}
     finally:
         mb.time = orig_time
 
@@ -495,10 +516,11 @@ def oracle(case, obs):
     fi = 0
     for pos, e in enumerate(log):
         while fi < len(fired) and fired[fi][-1] <= pos:
-            stream.append(('act', fired[fi]))
+            stream.append(('act', fired[fi], None))
             fi += 1
-        stream.append(('log', e))
-    stream.extend(('act', f) for f in fired[fi:])
+        stream.append(('log', e, pos))
+    stream.extend(('act', f, None) for f in fired[fi:])
+    wait_end = {w[0]: w[3] for w in obs.get('waits', [])}     # log position of a wait -> time at which it returned
     mpi = {i: mods[i]['pi'] for i in range(n)}
     cur = dict(mpi)
     fastf = {i: False for i in range(n)}
@@ -521,7 +543,7 @@ def oracle(case, obs):
             fail('sweep', f'{tr["reads"]} slow polls in the loop turn starting at {tr["tw"]}: main polls are delayed '
                  'by more than one slow poll')
 
-    for kind, e in stream:
+    for kind, e, pos in stream:
         if kind == 'act':
             k = e[1]
             if k == 'setint':
@@ -564,13 +586,29 @@ def oracle(case, obs):
         elif e[0] == 'read':
             turn['reads'] += 1
         elif e[0] == 'wait':
+            # the thread really slept from e[1] to we (a wait that returns at once because the trigger is set is no
+            # sleep); the intervals in force are those requested before the wait was entered
+            we = wait_end.get(pos)
             for m in enabled:
-                if t1[m] is not None and e[2] > 0 and e[1] + e[2] > t1[m] + cur[m] and not stopped:
-                    fail('oversleep', f'module {m}: wait at {e[1]} for {e[2]} passes the time {t1[m] + cur[m]} at which '
-                         f'doPoll is due at the latest (last start {t1[m]}, interval in force {cur[m]})')
+                if t1[m] is not None and we is not None and we > e[1] and we > t1[m] + cur[m] and not stopped:
+                    fail('oversleep', f'module {m}: the wait entered at {e[1]} (time-out {e[2]}) lasted until {we} and '
+                         f'passes the time {t1[m] + cur[m]} at which doPoll is due at the latest (last start {t1[m]}, '
+                         f'interval in force when the wait was entered {cur[m]})')
     if obs['end'] == 'budget':
         close(turn)
     turns = [(t['tw'], None) for t in turns]
+
+    # --- start-up: failing start-up calls (configured writes, initialReads, first reads; in particular communication
+    # failures) do not delay the modules beyond the bounds: the main loop - and with it, by the turn rule above, the
+    # first doPoll of every module - begins after at most one pass over the start-up functions (each lasting at most D),
+    # the 0.1 s wait for a reconnection and the per-turn overhead
+    if turns and enabled:
+        nfun = (sum(1 for m in mods if m['winit']) + sum(1 for m in mods if m['iread'])
+                + sum(len(spec_polled(mods[m])) for m in enabled))
+        bound = case['t0'] + nfun * D + STARTUP_WAIT + eps
+        if turns[0][0] > bound:
+            fail('startup-late', f'the main loop was entered at {turns[0][0]}, later than {bound} = start {case["t0"]} + one '
+                 f'pass over the {nfun} start-up calls of at most {D} each + {STARTUP_WAIT} reconnection wait + {eps}')
 
     # --- every polled parameter is refreshed within a bounded multiple of the slow interval
     if obs['end'] == 'budget' and turns:
@@ -648,7 +686,8 @@ def rand_actions(rng, mods, t0, horizon, allow_stop):
     mpi = [m['pi'] for m in mods]
     t = t0
     for _ in range(rng.choice([0, 0, 1, 2, 3, 5])):
-        t += rng.choice([1, S // 4, S // 2, S, 3 * S, horizon // 4 + 1])
+        # 0: two requests at the same time (the second one is still due when the first one has ended a wait)
+        t += rng.choice([0, 1, S // 4, S // 2, S, 3 * S, horizon // 4 + 1])
         m = rng.randrange(len(mods))
         r = rng.random()
         if r < 0.35:
@@ -685,6 +724,63 @@ def rand_case(rng, turns_max=40):
             'mods': mods, 'script': script, 'actions': rand_actions(rng, mods, t0, horizon, rng.random() < 0.3)}
 
 
+def lost_wakeup_case(rng):
+    """an idle poller (long intervals, short reads) and two requests at the same time: the first one ends the wait, the
+    second one (a shorter interval, fast polling, an immediate trigger) runs when the thread comes back to the trigger
+    event - the interleaving in which a request is lost when the event is cleared at the wrong place"""
+    nm = rng.choice([1, 1, 2])
+    mods = []
+    for _ in range(nm):
+        np_ = rng.randint(0, 2)
+        mods.append({'enable': True, 'pi': rng.choice([2 * S, 5 * S]), 'si': rng.choice([4 * S, 15 * S]),
+                     'winit': False, 'iread': False, 'main': [],
+                     'params': [{'kind': 'read', 'nopoll': False} for _ in range(np_)]})
+    t0 = rng.choice([1000 * S, 12345 * S + 513])
+    t = t0 + rng.choice([S, 2 * S, 3 * S, 5 * S]) + rng.choice([0, 1, 7, S // 2 + 3])
+    m = rng.randrange(nm)
+    first = rng.choice([[t, 'trig', m, False], [t, 'trig', rng.randrange(nm), False], [t, 'reconn'],
+                        [t, 'setint', m, 4 * S]])
+    second = rng.choice([[t, 'setint', m, S // 4], [t, 'setint', m, S // 8], [t, 'fast', m, True, S // 8],
+                         [t, 'fast', m, True, 0], [t, 'trig', m, True]])
+    acts = [first, second]
+    if rng.random() < 0.3:
+        t2 = t + rng.choice([S, 3 * S])
+        acts += [[t2, 'fast', m, True, S // 2], [t2, 'fast', m, True, S // 8]]
+    return {'t0': t0, 'eps': rng.choice([1, 1, 0, 2]), 'turns': rng.randint(12, 30), 'reconn': rng.random() < 0.5,
+            'mods': mods, 'script': [[rng.choice([1, 2, S // 16]), 'ok'] for _ in range(rng.randint(0, 12))],
+            'actions': acts}
+
+
+def startup_failure_case(rng):
+    """a communication failure at start-up that persists (initialReads, or reads failing with a different message each
+    time so that the repeated-error rule does not hide it), all calls equally long"""
+    nm = rng.choice([1, 2, 2, 3])
+    d = rng.choice([S // 8, S // 4, S])
+    mods = []
+    for k in range(nm):
+        np_ = rng.randint(0, 2)
+        mods.append({'enable': True, 'pi': rng.choice([S // 2, S, 2 * S]), 'si': rng.choice([S, 2 * S, 4 * S]),
+                     'winit': rng.random() < 0.2, 'iread': (k == 0 and rng.random() < 0.6) or rng.random() < 0.2,
+                     'main': [], 'params': [{'kind': 'read', 'nopoll': False} for _ in range(np_)]})
+    if not any(m['iread'] or m['params'] for m in mods):
+        mods[0]['iread'] = True
+    nfail = rng.randint(1, 14)
+    kind = rng.choice(['comm', 'comm', 'silent'])
+    script = [[d, [kind, j]] if rng.random() < 0.9 else [d, 'ok'] for j in range(nfail)]
+    return {'t0': 1000 * S, 'eps': 1, 'turns': rng.randint(3, 10), 'reconn': rng.random() < 0.5, 'mods': mods,
+            'script': script, 'actions': []}
+
+
+def long_run_case(rng):
+    """many loop turns of a nearly idle thread with a short slow interval: a thread that spins instead of sleeping, or
+    books its slow rounds too rarely, uses up an ordinary turn budget before any staleness bound is passed"""
+    np_ = rng.randint(1, 2)
+    mods = [{'enable': True, 'pi': rng.choice([2 * S, 5 * S]), 'si': rng.choice([S // 4, S // 2]), 'winit': False,
+             'iread': False, 'main': [], 'params': [{'kind': 'read', 'nopoll': False} for _ in range(np_)]}]
+    return {'t0': 1000 * S, 'eps': rng.choice([2, 3]), 'turns': rng.choice([1200, 1500]), 'reconn': False, 'mods': mods,
+            'script': [[rng.choice([1, 2, 4]), 'ok'] for _ in range(rng.randint(0, 6))], 'actions': []}
+
+
 def small_scope_cases():
     """exhaustive small scope: one module, one parameter of every kind, every outcome class at each of the first
     calls, the three interval regimes"""
@@ -710,6 +806,12 @@ def gen_cases(seed, tier):
     rng = random.Random(seed * 1000003 + 13)
     n = {'quick': 4000, 'thorough': 40000, 'search': 40000}[tier]
     cases = [rand_case(rng, 40 if tier == 'quick' else 80) for _ in range(n)]
+    rng2 = random.Random(seed * 7919 + 131)
+    for _ in range(n // 50):
+        cases.append(lost_wakeup_case(rng2))
+        cases.append(startup_failure_case(rng2))
+    for _ in range(n // 1300):
+        cases.append(long_run_case(rng2))
     cases.extend(small_scope_cases() if tier != 'quick' else small_scope_cases()[::5])
     return cases
 
